@@ -113,7 +113,10 @@ Fixpoint apply_rate (ord : bool) (cp : comm -> Z) (rate : amount) (c : option co
 Definition infer_rate (ord : bool) (cp : comm -> Z) (ps : list post) (bal : value) (nul : option nat)
   : res (list post * value) :=
   match nul, bal with
-  | None, VBal [x0; y0] =>
+  | None, VBal b =>
+    (* components that are exactly zero (left behind by a commodity whose postings cancelled) are not counted *)
+    match filter (fun a => negb (is_realzero a)) b with
+    | [x0; y0] =>
       match find_top ps None with
       | (Some tp, false) =>
           if negb (is_zero cp x0) && negb (is_zero cp y0) then
@@ -125,6 +128,8 @@ Definition infer_rate (ord : bool) (cp : comm -> Z) (ps : list post) (bal : valu
           else Ok (ps, bal)
       | _ => Ok (ps, bal)
       end
+    | _ => Ok (ps, bal)
+    end
   | _, _ => Ok (ps, bal)
   end.
 
